@@ -260,6 +260,7 @@ Definition snippet_stmt (st : pstate) : pres (stmt * pstate) :=
         do (b, st') <- pblock fok (stmt_fuel st) st;
         let '(lb, ss, rb) := b in POK (SBlock lb ss rb, st')
     | T_IF => pif fok (stmt_fuel st) st
+    | T_SWITCH => pswitch fok (stmt_fuel st) st
     | T_IDENT =>
         if peek_is st T_LEFT_PAREN then pfuncall fok st
         else match pgotodest st with
